@@ -319,6 +319,7 @@ def loop_carried_names(loop, store_ok=()):
             assigned_anywhere.add(n.id)
     targets = {n.id for n in ast.walk(loop.target) if isinstance(n, ast.Name)}
     carried = set()
+    cells = per_iteration_cells(loop, assigned_anywhere)
 
     def reads(expr, definite):
         for n in ast.walk(expr):
@@ -337,6 +338,8 @@ def loop_carried_names(loop, store_ok=()):
                         definite.update(e.id for e in t.elts)
                     elif isinstance(t, ast.Subscript) and isinstance(t.value, ast.Name) and t.value.id in store_ok:
                         reads(t.slice, definite)  # a store into the designated write-only accumulator
+                    elif isinstance(t, ast.Subscript) and ast.unparse(t.value) in cells:
+                        pass  # X[i] = ... where iteration i is the only one touching cell i of X
                     else:
                         carried.add("<store to %s>" % ast.unparse(t)[:30])
             elif isinstance(st, ast.AugAssign):
@@ -344,6 +347,8 @@ def loop_carried_names(loop, store_ok=()):
                 if isinstance(st.target, ast.Name):
                     if st.target.id not in definite:
                         carried.add(st.target.id)
+                elif isinstance(st.target, ast.Subscript) and ast.unparse(st.target.value) in cells:
+                    pass
                 else:
                     carried.add("<store to %s>" % ast.unparse(st.target)[:30])
             elif isinstance(st, ast.If):
@@ -371,6 +376,41 @@ def loop_carried_names(loop, store_ok=()):
 
     block(loop.body, set())
     return carried
+
+
+def per_iteration_cells(loop, assigned_in_body):
+    """Sources of expressions X such that, in `for i in range(...)`, every occurrence of X in the body is exactly `X[i]`
+    and X does not depend on i or on anything assigned in the body: iteration i reads and writes cell i of X only, and the
+    indices of a range are pairwise distinct, so stores to X[i] carry nothing from one iteration to another.  (Aliasing
+    between X and another object read in the body is outside this static rule; the harness models are distinct objects and
+    log the cells they are asked for.)"""
+    if not (isinstance(loop.target, ast.Name) and isinstance(loop.iter, ast.Call) and isinstance(loop.iter.func, ast.Name) and loop.iter.func.id == "range"):
+        return set()
+    t = loop.target.id
+    body = ast.Module(body=loop.body, type_ignores=[])
+    cands = set()
+    for n in ast.walk(body):
+        if isinstance(n, ast.Subscript) and isinstance(n.ctx, ast.Store) and isinstance(n.slice, ast.Name) and n.slice.id == t:
+            cands.add(ast.unparse(n.value))
+    parents = {}
+    for n in ast.walk(body):
+        for c in ast.iter_child_nodes(n):
+            parents[c] = n
+    out = set()
+    for src in cands:
+        ok = True
+        base = ast.parse(src, mode="eval").body
+        for n in ast.walk(base):
+            if isinstance(n, ast.Name) and (n.id == t or n.id in assigned_in_body):
+                ok = False
+        for n in ast.walk(body):
+            if isinstance(n, ast.expr) and not isinstance(n, ast.Constant) and ast.unparse(n) == src:
+                p = parents.get(n)
+                if not (isinstance(p, ast.Subscript) and p.value is n and isinstance(p.slice, ast.Name) and p.slice.id == t):
+                    ok = False
+        if ok:
+            out.add(src)
+    return out
 
 
 def seq_sum(I, seq):
@@ -578,6 +618,17 @@ def py_range(I, *args):
 
 
 def SymRange(I, *args):
+    if len(args) == 3:
+        step = args[2]
+        if isinstance(step, Num) and step.is_const():
+            step = int(step.const_value())
+        if step == -1:
+            # range(lo, hi, -1): lo, lo-1, ..., hi+1   (length max(lo - hi, 0); the harness' facts decide emptiness)
+            lo, hi = I.to_num(args[0]), I.to_num(args[1])
+            return SymSeq("range(%s,%s,-1)" % (lo.key(), hi.key()), lo - hi, lambda idx: _num_or_int(lo - idx))
+        if step != 1:
+            raise Unsupported("symbolic range with step %r" % (step,))
+        args = args[:2]
     if len(args) == 1:
         lo, hi = 0, args[0]
     elif len(args) == 2:
